@@ -8,7 +8,7 @@ explicit raises reachable from solve, exit_info never None where it is dereferen
 import ast
 
 from ..loader import AnalysisError, ekey
-from ..norm import atom_of, const_value, is_none
+from ..norm import Atom, atom_of, const_value, is_none
 from ..resolve import bind_call
 from ..dataflow import Flow
 from .. import tables
@@ -74,16 +74,81 @@ def _is_comprehension_var(eng, node):
 
 
 # --------------------------------------------------------------------------------------------- C07-2/3
+def _is_input_error_ctor(eng, e):
+    if not isinstance(e, ast.Call):
+        return False
+    ci = eng.res.calls.get(id(e))
+    return bool(ci and any(t.fid == "controller.ExitInformation.__init__" for t in ci.targets)
+                and e.args and isinstance(e.args[0], ast.Name) and e.args[0].id == "EXIT_INPUT_ERROR")
+
+
+def _validation_helper(eng, call):
+    """If `call` resolves to one internal function every return of which is None or ExitInformation(EXIT_INPUT_ERROR, ..) (an extracted block of input checks),
+    return (helper, cfg of the helper, [cfg nodes of its error returns]); else None."""
+    ci = eng.res.calls.get(id(call)) if isinstance(call, ast.Call) else None
+    if ci is None or len(ci.targets) != 1:
+        return None
+    h = ci.targets[0]
+    if h.cls is not None or h.fid.startswith("controller.ExitInformation"):
+        return None
+    hcfg = eng.cfg(h)
+    errs = []
+    rets = [(n, d["ast"]) for n, d in hcfg.g.nodes(data=True) if d["kind"] == "stmt" and isinstance(d["ast"], ast.Return)]
+    if not rets:
+        return None
+    for n, r in rets:
+        if r.value is None or is_none(r.value):
+            continue
+        if _is_input_error_ctor(eng, r.value):
+            errs.append(n)
+        else:
+            return None
+    # no other effect that matters here: the helper must not call anything that evaluates or raises on purpose
+    for node in eng.prog.own_nodes(h):
+        if isinstance(node, ast.Raise):
+            return None
+    return (h, hcfg, errs) if errs else None
+
+
 def _input_error_sites(eng, solve, cfg):
-    """CFG nodes `exit_info = ExitInformation(EXIT_INPUT_ERROR, ...)` in solve."""
+    """CFG nodes `exit_info = ExitInformation(EXIT_INPUT_ERROR, ...)` in solve, and `exit_info = <validation helper>(...)`."""
     out = []
     for n, d in cfg.g.nodes(data=True):
         st = d["ast"]
         if d["kind"] == "stmt" and isinstance(st, ast.Assign) and isinstance(st.value, ast.Call):
-            ci = eng.res.calls.get(id(st.value))
-            if ci and any(t.fid == "controller.ExitInformation.__init__" for t in ci.targets):
-                if st.value.args and isinstance(st.value.args[0], ast.Name) and st.value.args[0].id == "EXIT_INPUT_ERROR":
-                    out.append(n)
+            if _is_input_error_ctor(eng, st.value) or _validation_helper(eng, st.value) is not None:
+                out.append(n)
+    return out
+
+
+def _site_guard_sets(eng, cfg, s):
+    """The guard atoms under which site s assigns an input error: one list per error outcome.  A validation helper contributes one list per error return,
+    made of the guards at the call site plus the helper's own guards with its parameters replaced by the call's arguments."""
+    import copy
+    outer = [a for (_b, a) in guards_of(cfg, s)]
+    st = cfg.ast_of(s)
+    vh = _validation_helper(eng, st.value) if isinstance(st, ast.Assign) else None
+    if vh is None:
+        return [outer]
+    h, hcfg, errs = vh
+    b = bind_call(st.value, h, False)
+    mapping = dict((k, v) for k, v in b.params.items() if isinstance(v, ast.AST))
+
+    class _S(ast.NodeTransformer):
+        def visit_Name(self, node):
+            if isinstance(node.ctx, ast.Load) and node.id in mapping:
+                return copy.deepcopy(mapping[node.id])
+            return node
+    out = []
+    for r in errs:
+        inner = []
+        for (_b, a) in guards_of(hcfg, r):
+            lhs = _S().visit(copy.deepcopy(a.lhs))
+            rhs = _S().visit(copy.deepcopy(a.rhs)) if a.rhs is not None else None
+            na = Atom.__new__(Atom)
+            na.op, na.lhs, na.rhs = a.op, lhs, rhs
+            inner.append(na)
+        out.append(outer + inner)
     return out
 
 
@@ -98,7 +163,7 @@ def _graceful_cond(eng, cfg, var="exit_info"):
             for m, e in cfg.succ(n):
                 if e["label"] == true_lab:
                     rets = [r for r, d in cfg.g.nodes(data=True) if d["kind"] == "stmt" and isinstance(d["ast"], ast.Return)]
-                    if cfg.path_avoiding(m, cfg.exit, rets) is None and m not in (cfg.exit,):
+                    if m in rets or (cfg.path_avoiding(m, cfg.exit, rets) is None and m not in (cfg.exit,)):
                         cands.append((n, true_lab, m))
     return cands
 
@@ -108,7 +173,7 @@ def rule_graceful(eng, rep):
     solve = eng.fn("solver.solve")
     cfg = eng.cfg(solve)
     sites = _input_error_sites(eng, solve, cfg)
-    if not rep.require_count(rule, "input-error assignments in solve", len(sites), 15):
+    if not rep.require_count(rule, "input-error assignments in solve", sum(len(_site_guard_sets(eng, cfg, s)) for s in sites), 15):
         return None
     cands = _graceful_cond(eng, cfg)
     if not cands:
@@ -253,11 +318,14 @@ def rule_invalid_arg_guards(eng, rep, ctx):
     if ctx is None:
         return
     cfg, sites, gnode = ctx
+
+    def A(ps):
+        return cfg.ast_of(ps[0])
     solve = eng.fn("solver.solve")
     site_guards = {}
     for s in sites:
-        site_guards[s] = [a for (_b, a) in guards_of(cfg, s)
-                          if not (isinstance(a.lhs, ast.Name) and a.lhs.id == "exit_info")]
+        for gs in _site_guard_sets(eng, cfg, s):
+            site_guards[(s, len(site_guards))] = [a for a in gs if not (isinstance(a.lhs, ast.Name) and a.lhs.id == "exit_info")]
     classified = set()
     missing = []
     # comparison rows
@@ -279,11 +347,11 @@ def rule_invalid_arg_guards(eng, rep, ctx):
         if exact_hits:
             for (s, a) in exact_hits:
                 classified.add(s)
-            rep.ok(rule, eng.where(solve, cfg.ast_of(exact_hits[0][0])), "%s guarded by `%r`" % (rid, exact_hits[0][1]))
+            rep.ok(rule, eng.where(solve, A(exact_hits[0][0])), "%s guarded by `%r`" % (rid, exact_hits[0][1]))
         elif subject_hits:
             for (s, a) in subject_hits:
                 classified.add(s)
-            rep.bad(rule, eng.where(solve, cfg.ast_of(subject_hits[0][0])), "solver.solve|weakened-guard|%s" % rid,
+            rep.bad(rule, eng.where(solve, A(subject_hits[0][0])), "solver.solve|weakened-guard|%s" % rid,
                     "guard for documented class `%s` (%s) is `%r`: boundary value is no longer rejected" % (rid, reason, subject_hits[0][1]))
         else:
             missing.append(rid)
@@ -293,7 +361,7 @@ def rule_invalid_arg_guards(eng, rep, ctx):
     pv = [s for s in pv if not param_keys_in(eng, _all_guard_expr(site_guards[s]))]
     if pv:
         classified |= set(pv)
-        rep.ok(rule, eng.where(solve, cfg.ast_of(pv[0])), "bad parameter values guarded by `not all_ok`")
+        rep.ok(rule, eng.where(solve, A(pv[0])), "bad parameter values guarded by `not all_ok`")
     else:
         missing.append("bad parameter values")
     # single-parameter threshold rows
@@ -308,10 +376,10 @@ def rule_invalid_arg_guards(eng, rep, ctx):
                         weak = (s, a)
         if hit is not None:
             classified.add(hit[0])
-            rep.ok(rule, eng.where(solve, cfg.ast_of(hit[0])), "%s guarded by `%r`" % (rid, hit[1]))
+            rep.ok(rule, eng.where(solve, A(hit[0])), "%s guarded by `%r`" % (rid, hit[1]))
         elif weak is not None:
             classified.add(weak[0])
-            rep.bad(rule, eng.where(solve, cfg.ast_of(weak[0])), "solver.solve|weakened-guard|%s" % rid, "guard for `%s` (%s) is `%r`: boundary value is no longer rejected" % (rid, reason, weak[1]))
+            rep.bad(rule, eng.where(solve, A(weak[0])), "solver.solve|weakened-guard|%s" % rid, "guard for `%s` (%s) is `%r`: boundary value is no longer rejected" % (rid, reason, weak[1]))
         else:
             missing.append(rid)
     # an option that contradicts an argument: (row id, parameter key, required truth of the key, names on the smaller side, names on the larger side)
@@ -324,7 +392,7 @@ def rule_invalid_arg_guards(eng, rep, ctx):
                 hit = s
         if hit is not None:
             classified.add(hit)
-            rep.ok(rule, eng.where(solve, cfg.ast_of(hit)), "contradiction `%s` guarded" % rid)
+            rep.ok(rule, eng.where(solve, A(hit)), "contradiction `%s` guarded" % rid)
         else:
             missing.append(rid)
     # option-pair rows
@@ -352,19 +420,19 @@ def rule_invalid_arg_guards(eng, rep, ctx):
                 break
         if hit is not None:
             classified.add(hit)
-            rep.ok(rule, eng.where(solve, cfg.ast_of(hit)), "option conflict `%s` guarded" % rid)
+            rep.ok(rule, eng.where(solve, A(hit)), "option conflict `%s` guarded" % rid)
         else:
             missing.append(rid)
-    unclassified = [s for s in sites if s not in classified]
+    unclassified = [s for s in site_guards if s not in classified]
     for rid in missing:
         if unclassified:
             rep.unknown(rule, eng.where(solve), "no guard recognised for documented class `%s`, but %d input-error guards are in a form "
-                        "the idiom table does not cover (e.g. %s)" % (rid, len(unclassified), short(cfg.ast_of(unclassified[0]), 60)))
+                        "the idiom table does not cover (e.g. %s)" % (rid, len(unclassified), short(A(unclassified[0]), 60)))
         else:
             rep.bad(rule, eng.where(solve), "solver.solve|missing-guard|%s" % rid,
                     "documented invalid-argument class `%s` has no guard ending in an EXIT_INPUT_ERROR result" % rid)
     for s in unclassified:
-        rep.note(rule, eng.where(solve, cfg.ast_of(s)), "additional input-error guard (not in the documented table)")
+        rep.note(rule, eng.where(solve, A(s)), "additional input-error guard (not in the documented table)")
 
 
 def _all_guard_expr(atoms):
